@@ -186,46 +186,14 @@ Definition define_of_target (f : list N) (t : target) : option (list floc) :=
 Definition define_at_wide (g : bool) (w : mws) (f : list N) (fi : fileinfo) (name : list N) (line col : Z)
   : option (list floc) := define_of_target f (resolve_at_wide g w f fi name line col).
 
-(* the body of Resolve.references_at with the target as a parameter *)
-Definition references_of_target (mode : refmode) (w : mws) (f : list N) (fi : fileinfo) (name : list N) (t : target)
-  : option (list floc) :=
-  match t with
-  | TLocal v =>
-    let d := v_loc v in
-    Some ((f, d) :: map (fun o => (f, o_loc o))
-                        (filter (fun o => occ_matches_local name d o && negb (inside d (o_loc o))) (fi_occs fi)))
-  | TGlobal F g =>
-    let d := g_loc g in
-    let files := match mode with MHighlight => [(f, fi)] | _ => w end in
-    let head := match mode with
-                | MHighlight => if beq_bytes F f then [(F, d)] else []
-                | _ => [(F, d)]
-                end in
-    let needs_ws := existsb (fun x => match find_global_var (fi_globals (snd x)) name with
-                                      | Some _ => false
-                                      | None => existsb (fun o => revisited o && beq_bytes (o_name o) name
-                                                                  && match o_res o with None => true | Some _ => false end)
-                                                        (fi_occs (snd x))
-                                      end) files in
-    match ws_global w name with
-    | WAmbig => if needs_ws then None else
-      Some (head ++ flat_map (fun x => map (fun o => (fst x, o_loc o))
-                                           (filter (fun o => occ_matches_global w name F g (fst x) (snd x) o
-                                                             && negb (inside d (o_loc o)))
-                                                   (fi_occs (snd x)))) files)
-    | _ =>
-      Some (head ++ flat_map (fun x => map (fun o => (fst x, o_loc o))
-                                           (filter (fun o => occ_matches_global w name F g (fst x) (snd x) o
-                                                             && negb (inside d (o_loc o)))
-                                                   (fi_occs (snd x)))) files)
-    end
-  | TNone => Some []
-  | TAmbig => None
-  end.
-
+(* Resolve.references_of_target: the body of references_at with the target as a parameter *)
 Definition references_at_wide (mode : refmode) (g : bool) (w : mws) (f : list N) (fi : fileinfo) (name : list N)
            (line col : Z) : option (list floc) :=
   references_of_target mode w f fi name (resolve_at_wide g w f fi name line col).
+
+Definition references_at_wide_fx (fx : bfixes) (mode : refmode) (g : bool) (w : mws) (f : list N) (fi : fileinfo)
+           (name : list N) (line col : Z) : option (list floc) :=
+  references_of_target_fx fx mode w f fi name (resolve_at_wide g w f fi name line col).
 
 Definition hover_of_target (t : target) : hoverres :=
   match t with
